@@ -99,6 +99,7 @@ def finish(pid, tier, seed, results, ev_path, t0):
     violations, known_lines, herr = [], [], []
     functions, bounds, assumptions, samples, notes = [], [], [], [], []
     paths = 0
+    chc = chd = 0
     per_ob = []
     for r in results:
         for k in tot:
@@ -119,6 +120,8 @@ def finish(pid, tier, seed, results, ev_path, t0):
             samples.append({"obligation": r["obligation"], "case": s})
         notes += ["%s: %s" % (r["obligation"], n) for n in r.get("notes", [])]
         paths += r.get("paths", 0)
+        chc += r.get("ch_conditions", 0)
+        chd += r.get("ch_definite", 0)
         per_ob.append({"obligation": r["obligation"], "title": r.get("title", ""), "status": r["status"], "sub": r.get("sub"), "queries": r.get("queries"), "paths": r.get("paths", 0), "solver_s": r.get("solver_s"), "wall_s": r.get("wall_s")})
     for line in known_lines:
         print(line)
@@ -144,9 +147,11 @@ def finish(pid, tier, seed, results, ev_path, t0):
             "known_findings_reconfirmed": tot["known"],
             "checker_cmd": "./check %s --tier %s" % (pid, tier),
             "trusted_base": ["z3 5.1.0 (z3-solver wheel)", "cvc5 1.4.0 (cross-check)", "CrossHair 0.0.110", "engine/symtorch.py handlers (validated per harness against torch on concrete inputs)", "contract stubs listed under assumptions"],
-            "evaluations": max(nq, 1),
-            "distinct_nontrivial": max(q.get("unsat", 0) + q.get("sat", 0), 0),
-            "rule": "one evaluation = one solver query (feasibility, vacuity witness, sensitivity twin or negated obligation); non-trivial = the solver returned a definite verdict on a formula that did not simplify to a constant before being sent; queries are generated per output element / per path, so they are distinct by construction",
+            "evaluations": max(nq + chc, 1),
+            "distinct_nontrivial": max(q.get("unsat", 0) + q.get("sat", 0) + chd, 0),
+            "crosshair_conditions": chc,
+            "crosshair_definite_verdicts": chd,
+            "rule": "one evaluation = one solver query (feasibility, vacuity witness, sensitivity twin or negated obligation) or one CrossHair condition (a contract over symbolic integers/booleans, explored path by path with z3 inside CrossHair); non-trivial = the solver returned a definite verdict (unsat/sat; CrossHair: 'Confirmed over all paths' or a counterexample) on a formula that did not simplify to a constant before being sent; queries are generated per output element / per path / per slice, so they are distinct by construction",
             "samples": samples[:12] or [{"note": "no samples"}],
             "queries": q,
             "paths_explored": paths,
